@@ -11,6 +11,64 @@ pub enum B {
     L(Vec<u8>),
     /// `len` bytes: constant `seed` if !rnd, xorshift stream seeded by `seed` otherwise
     R { len: u32, seed: u8, rnd: bool },
+    /// `len` bytes (random prefix + zero tail) chosen so that the LZ4 block of the value is exactly
+    /// as long as the value itself (falls back to the closest length found)
+    Z { len: u32, seed: u8 },
+}
+
+fn xs_bytes(n: usize, seed: u8) -> Vec<u8> {
+    let mut v = Vec::with_capacity(n);
+    let mut x: u64 = 0x9E37_79B9_7F4A_7C15 ^ (u64::from(seed) << 8 | 1);
+    for _ in 0..n {
+        x ^= x << 13;
+        x ^= x >> 7;
+        x ^= x << 17;
+        v.push((x >> 24) as u8);
+    }
+    v
+}
+
+fn lz4_equal_len(len: usize, seed: u8) -> Vec<u8> {
+    let rnd = xs_bytes(len, seed);
+    let build = |r: usize| {
+        let mut v = rnd[..r].to_vec();
+        v.resize(len, 0);
+        v
+    };
+    let (mut lo, mut hi) = (0usize, len);
+    let mut best = build(len / 2);
+    let mut best_d = usize::MAX;
+    while lo <= hi {
+        let mid = (lo + hi) / 2;
+        let v = build(mid);
+        let c = lz4_flex::compress(&v).len();
+        let d = c.abs_diff(len);
+        if d < best_d {
+            best_d = d;
+            best = v;
+        }
+        if c == len {
+            break;
+        }
+        if c < len {
+            lo = mid + 1;
+        } else {
+            if mid == 0 {
+                break;
+            }
+            hi = mid - 1;
+        }
+    }
+    if best_d != 0 {
+        // linear refinement around the crossing point
+        for r in lo.saturating_sub(40)..(lo + 40).min(len) {
+            let v = build(r);
+            if lz4_flex::compress(&v).len() == len {
+                return v;
+            }
+        }
+    }
+    best
 }
 
 impl B {
@@ -32,12 +90,13 @@ impl B {
                 }
                 v
             }
+            B::Z { len, seed } => lz4_equal_len(*len as usize, *seed),
         }
     }
     pub fn len(&self) -> usize {
         match self {
             B::L(v) => v.len(),
-            B::R { len, .. } => *len as usize,
+            B::R { len, .. } | B::Z { len, .. } => *len as usize,
         }
     }
 }
